@@ -5,14 +5,16 @@ open Driver GilVerif.Geom GilVerif.Model.C03 GilVerif.Gen.C03
 /-- source view of a kind: (geometry, iterator kind, virtual?) -/
 def srcView (k : String) (W H PAD OFF : Int) : Option (View × Kind × Bool) :=
   let bytes (p : Int) : Option (View × Kind × Bool) :=
-    some ({ base := 0, xs := p, ys := W * p + PAD, w := W, h := H }, ⟨false, false, 0, false⟩, false)
+    some ({ base := 0, xs := p, ys := W * p + PAD, w := W, h := H }, ⟨false, false, 0, false, false, 0⟩, false)
+  let planar (c : Int) : Option (View × Kind × Bool) :=
+    some ({ base := 0, xs := c, ys := W * c + PAD, w := W, h := H }, ⟨false, false, 0, false, true, c⟩, false)
   let bits (b : Int) : Option (View × Kind × Bool) :=
-    some ({ base := OFF, xs := b, ys := W * b + PAD, w := W, h := H }, ⟨true, false, b, false⟩, false)
+    some ({ base := OFF, xs := b, ys := W * b + PAD, w := W, h := H }, ⟨true, false, b, false, false, 0⟩, false)
   match k with
   | "g8" => bytes 1 | "rgb8" => bytes 3 | "rgba8" => bytes 4 | "rgb16" => bytes 6 | "rgb32f" => bytes 12 | "p565" => bytes 2
-  | "pl8" => bytes 1 | "pl16" => bytes 2
+  | "pl8" => planar 1 | "pl16" => planar 2
   | "b1" => bits 1 | "b2" => bits 2 | "b3" => bits 3 | "b4" => bits 4 | "b6" => bits 6 | "b12" => bits 12
-  | "v" => some ({ base := OFF * 4096 + PAD, xs := 1, ys := 4096, w := W, h := H }, ⟨false, false, 0, true⟩, true)
+  | "v" => some ({ base := OFF * 4096 + PAD, xs := 1, ys := 4096, w := W, h := H }, ⟨false, false, 0, true, false, 0⟩, true)
   | _ => none
 
 def parseXf (tok : String) : Option Xform :=
@@ -43,7 +45,6 @@ def parseView (ws : List String) : Option (View × Kind × Bool) :=
     | _, _ => none
   | _ => none
 
-def b2i (b : Bool) : Int := if b then 1 else 0
 def range' (lo hi : Int) : List Int := (List.range (hi - lo + 1).toNat).map (fun i => lo + Int.ofNat i)
 
 def pos3 (it : It) : List Int := [it.x, it.y, it.p.pos]
@@ -93,7 +94,7 @@ def modelSt (k : Kind) (start step : Int) (isY : Bool) (i nlo nhi m : Int) : Str
   let it0 := adv start i
   let rows := (range' nlo nhi).map fun n =>
     let J := adv it0 n
-    [J, stepSub k step J it0] ++ itCmp k isY step it0 J ++ [b2i (it0 == J), adv J m, adv it0 (n + m)]
+    [J, itSub k isY step J it0] ++ itCmp k isY step it0 J ++ [if isY then b2i (it0 == J) else itEq k it0 J, adv J m, adv it0 (n + m)]
   join ([it0, inc it0, dec (inc it0)] :: rows)
 
 def modelMv (v : View) (k : Kind) (x0 y0 : Int) (ms : List Move) : String :=
@@ -105,7 +106,10 @@ def modelMv (v : View) (k : Kind) (x0 y0 : Int) (ms : List Move) : String :=
   let direct := ((View.loc v).move k X Y).pos
   showInts [l.pos, l.pos, direct, direct, X, Y]
 
-def bitKind (b : Int) : Kind := ⟨true, false, b, false⟩
+def bitKind (b : Int) : Kind := ⟨true, false, b, false, false, 0⟩
+
+/-- distance between the planes of the harness's planar sources -/
+def PLANE : Int := 131072
 
 def model (line : String) : String :=
   match words line with
@@ -138,10 +142,19 @@ def model (line : String) : String :=
     match ints [b, off, n] with
     | some [b, off, n] =>
       let k := bitKind b
-      let J := memAdvance k off (bitit_advance_bits n b)
-      let sub (a c : Int) : Int := -(bitit_distance (memDistance k a c) b)       -- a - c = -(a.distance_to(c))
-      showInts [J, sub J off, b2i (decide (0 > sub off J)), b2i (decide (0 > sub J off)), memAdvance k J (bitit_advance_bits (-n) b)]
+      let J := xAdv k b off n                                                    -- it + n
+      showInts [J, itSub k false b J off, (itCmp k false b off J)[0]!, (itCmp k false b J off)[0]!, xAdv k b J (-n)]
     | _ => "bad-op"
+  | "pli" :: rest =>      -- raw planar x-iterator with all its planes: it = row_begin(y) + i;  it[d], it + d, (it+d) - it, comparisons
+    match parseView (rest.take 6), ints (rest.drop 6) with
+    | some (v, k, _), some [y, i, d] =>
+      if !(k.planar && !k.xstep) then "bad-op" else
+      let a := xAdv k v.xs ((View.loc v).move k 0 y).pos i
+      let ps := [a, a + PLANE, a + 2 * PLANE]
+      let J := xAdv k v.xs a d
+      showInts (ps ++ planarIndex k.chan ps d ++ planarAdvance k.chan ps d ++ [itSub k false v.xs J a] ++ itCmp k false v.xs a J
+                ++ [itEq k a J, 1 - itEq k a J])
+    | _, _ => "bad-op"
   | _ => "bad-op"
 
 /-! ### judge: the Spec on the implementation's observation -/
@@ -250,6 +263,17 @@ def judge (op obs : String) : String :=
       else if p2 ≠ off then fail "bit iterator: advance n then -n is the identity"
       else "ok"
     | _, _ => fail ("not-a-value:" ++ obs.take 40)
+  | "pli" :: rest =>
+    match parseView (rest.take 6), ints (rest.drop 6), ints (words obs) with
+    | some (_, k, _), some [_, _, d], some [p0, p1, p2, i0, i1, i2, a0, a1, a2, sub, lt, gt, le, ge, eq, ne] =>
+      let c := k.chan
+      if [i0, i1, i2] ≠ [p0 + d * c, p1 + d * c, p2 + d * c] then fail "planar iterator: it[d] addresses every plane d*sizeof(channel) bytes further"
+      else if [a0, a1, a2] ≠ [i0, i1, i2] then fail "planar iterator: it[d] is *(it+d) in every plane"
+      else if sub ≠ d then fail "planar iterator: (it+d)-it == d"
+      else if (lt = 1) ≠ (d > 0) ∨ (gt = 1) ≠ (d < 0) ∨ (le = 1) ≠ (d ≥ 0) ∨ (ge = 1) ≠ (d ≤ 0) then fail "planar iterator: it<jt iff jt-it>0 (and > <= >=)"
+      else if (eq = 1) ≠ (d = 0) ∨ (ne = 1) ≠ (d ≠ 0) then fail "planar iterator: it == it+d iff d == 0"
+      else "ok"
+    | _, _, _ => fail ("not-a-value:" ++ obs.take 40)
   | ["bitit", _, off, n] =>
     match ints [off, n], ints (words obs) with
     | some [off, n], some [_, d, lt, gt, back] =>
